@@ -2,7 +2,7 @@
 (* C11: judges observations of real cancelled / destroyed runs.               *)
 (* obs: [runner, prog, at, nfiles, destroy, frozen, r ("verdict"|"err"|"hang"),       *)
 (*       status, code, err, elapsed (ms), alive (program processes left),     *)
-(*       init_alive]                                                          *)
+(*       init_alive, follow]                                                  *)
 EXTENDS Integers, Sequences, FiniteSets, TLC, Json, SequencesExt
 Obs == ndJsonDeserialize("obs.ndjson")
 Bound == 8000                      \* "bounded time": typical is < 100 ms after the cancellation
@@ -16,6 +16,8 @@ JudgeCancel(o) ==
   /\ o.r # "hang" /\ o.elapsed <= After(o) + Bound
   /\ TLE(o) \/ Genuine(o)
   /\ o.alive = 0
+  \* the cancellation of the NEXT run on the same environment is not lost either
+  /\ o.follow \in {"", "verdict:2"}
 \* Destroy in flight: the call returns (an error, or the verdict if the program had ended), and
 \* everything inside dies
 JudgeDestroy(o) ==
